@@ -950,9 +950,7 @@ func c09Run(r *Run) {
 	}
 
 	var allFlagAccess []token.Pos
-	if send := methods["Send"]; send == nil {
-		r.fail("anchor not found: (*Channel).Send")
-	} else {
+	judgeSender := func(send *ast.FuncDecl) {
 		exits, ops, fa := analyse(send)
 		allFlagAccess = append(allFlagAccess, fa...)
 		r.curRule = "C09-ONCE"
@@ -1046,9 +1044,12 @@ func c09Run(r *Run) {
 			}
 		}
 	}
-	if recv := methods["Receive"]; recv == nil {
-		r.fail("anchor not found: (*Channel).Receive")
+	if send := methods["Send"]; send == nil {
+		r.fail("anchor not found: (*Channel).Send")
 	} else {
+		judgeSender(send)
+	}
+	judgeReceiver := func(recv *ast.FuncDecl) {
 		exits, ops, fa := analyse(recv)
 		allFlagAccess = append(allFlagAccess, fa...)
 		r.curRule = "C09-ONCE"
@@ -1155,8 +1156,13 @@ func c09Run(r *Run) {
 		if commaOK {
 			r.ok(funcKey(pkg, recv)+"#comma-ok", recv.Pos(), "Receive reports 'no value' only when the channel cannot deliver one (two-result receive, or a drained non-blocking receive on a never-closed data channel)")
 		} else {
-			r.bad(funcKey(pkg, recv)+"#comma-ok", recv.Pos(), "Receive can report 'closed, no value' without having established that no value is left (no two-result receive, and not every such answer follows a drained non-blocking receive): buffered values are lost after close, or a zero value is indistinguishable from data")
+			r.bad(funcKey(pkg, recv)+"#comma-ok", recv.Pos(), recv.Name.Name+" can report 'closed, no value' without having established that no value is left (no two-result receive, and not every such answer follows a drained non-blocking receive): buffered values are lost after close, or a zero value is indistinguishable from data")
 		}
+	}
+	if recv := methods["Receive"]; recv == nil {
+		r.fail("anchor not found: (*Channel).Receive")
+	} else {
+		judgeReceiver(recv)
 	}
 	if cl := methods["Close"]; cl == nil {
 		r.fail("anchor not found: (*Channel).Close")
@@ -1195,6 +1201,29 @@ func c09Run(r *Run) {
 			continue
 		}
 		_, ops, fa := analyse(fd)
+		if name != "Construct" && len(ops) > 0 {
+			// a further operation of the same kind (receive with a timeout, non-blocking send): judged by
+			// the rules of the operation it performs, by its result shape — (value, bool) / bool
+			kinds := map[string]bool{}
+			for _, o := range ops {
+				kinds[o.kind] = true
+			}
+			if sig, ok := info.Defs[fd.Name].Type().(*types.Signature); ok {
+				isBool := func(t types.Type) bool {
+					b, ok := t.Underlying().(*types.Basic)
+					return ok && b.Kind() == types.Bool
+				}
+				n := sig.Results().Len()
+				if len(kinds) == 1 && kinds["receive"] && n == 2 && isBool(sig.Results().At(1).Type()) {
+					judgeReceiver(fd)
+					continue
+				}
+				if len(kinds) == 1 && kinds["send"] && n == 1 && isBool(sig.Results().At(0).Type()) {
+					judgeSender(fd)
+					continue
+				}
+			}
+		}
 		allFlagAccess = append(allFlagAccess, fa...)
 		if name == "Construct" {
 			continue // (re)initialisation closes the previous channel
